@@ -3,7 +3,7 @@ Oracle/C06.lean — line-protocol oracle for property C06 (core only; compiled t
 
   mux <stream> <events> <tags> <tags without payload> => <results>
       stream  = frames the fake broker sent on the Conn, in order: id:tag,…
-      events  = the recorded C.* hook events: W<tag>:<ok>:<id> T<seq> Y<seq>:<seen> L<seq>:<seen> E<seq> F<seq>:<ok|kafka|io>
+      events  = the recorded C.* hook events: W<tag>:<ok>:<id> T<seq> Y<seq>:<seen> L<seq>:<seen> E<seq> F<seq>:<ok|kafka|io> K (Conn.Close)
       tags    = the tags of the API calls the harness made (tag 0 = internal ApiVersions exchanges)
       model   = trace acceptance through Model/ConnMux.step (`reject@i:<event>` names the first event the model
                 cannot take), then for every tag the result the model's final state gives that call
@@ -55,6 +55,7 @@ def parseEvent (s : String) : Option Event :=
   | "F", [q, "ok"] => q.toNat?.map (.finish · .ok)
   | "F", [q, "kafka"] => q.toNat?.map (.finish · .kafka)
   | "F", [q, "io"] => q.toNat?.map (.finish · .io)
+  | "K", _ => some .close
   | _, _ => none
 
 /-- the same events as the reference monitor reads them -/
